@@ -30,7 +30,7 @@ ANCH = [("storage::restrict::PairedStorageRead", "get_other"), ("storage::restri
 
 
 def configs(tier):
-    return ["A"] if tier == "quick" else ["A", "F", "N", "FN"]
+    return ["A", "F"] if tier == "quick" else ["A", "F", "N", "FN"]
 
 
 def run(ctx):
